@@ -188,6 +188,13 @@ def run_case(ctx, case_seed, i):
           key = 'C18/limit-zero-ignored'
       except evaluator.Unsupported:
         pass
+    if key is None and status == 'diagnostic':
+      # the order-sensitive elimination defect recorded under C01 (classified only when another conjunct order of the
+      # same program compiles and returns the reference rows): not this property's subject
+      k2 = semantic.classify_order_sensitive_rejection(ref_prog, res, 'C01', switches=semantic.baseline_switches())
+      if k2:
+        ctx.count('discarded_c01_elimination_finding')
+        continue
     ctx.violation(key, '%s for %s (order_by %s, limit %s): %s' % (what, pred, keys if use_order else None, k, (detail or '')[:300]),
                   semantic.witness(ref_prog, text, res, info))
 
